@@ -236,10 +236,15 @@ def main(engine_name, argv=None):
     explore_s = time.time() - t0
     if not harness_fail and not agg['harness'] and agg['runs'] == 0:
         harness_fail = 'nothing could be explored (no universe compiled / no run completed): never a pass'
-    if harness_fail or agg['harness']:
+    if (harness_fail or agg['harness']) and not agg['violations']:
         print('HARNESS-FAILURE: %s' % (harness_fail or agg['harness'][0]), flush=True)
         _write_evidence(eng, prop, args, verif_seed, agg, time.time() - t0, explore_s, harness=True)
         return 2
+    if harness_fail or agg['harness']:
+        # some runs died inside the harness, others found violations: the violations are reported
+        # (each is confirmed by its own replay below); the harness trouble is not hidden
+        print('HARNESS-NOTE: %d run(s) failed inside the harness: %s' % (
+            len(agg['harness']) or 1, (harness_fail or agg['harness'][0])[:300].replace('\n', ' | ')), flush=True)
 
     # ---- determinism self-test on a sample of the explored runs (DESIGN 2.8)
     st = None
